@@ -328,8 +328,77 @@ def one_callback(ctx, t, version, name, cid, rx, rvals):
     return None
 
 
+def enum_types():
+    """Every integer enumeration (flags excluded) reachable from a command schema of any version: top-level fields, struct fields
+    and list items, recursively."""
+    seen, out, todo = set(), [], []
+    for v in ezspenv.VERSIONS:
+        for cid, tx, rx in ezspenv.handler_class(v).COMMANDS.values():
+            for sch in (tx, rx):
+                todo += list(sch.values()) if isinstance(sch, dict) else [sch] if inspect.isclass(sch) else []
+    while todo:
+        ty = todo.pop()
+        if not inspect.isclass(ty) or ty in seen:
+            continue
+        seen.add(ty)
+        if gv.is_flag(ty):
+            continue
+        if gv.is_enum(ty):
+            out.append(ty)
+        elif gv.is_struct(ty):
+            try:
+                todo += [f.type for f in ty.fields]
+            except Exception:  # noqa
+                pass
+        it = gv.item_type(ty)
+        if it is not None:
+            todo.append(it)
+    return sorted(out, key=lambda c: c.__name__)
+
+
+def enum_fidelity(rep):
+    """Leaf codec of every enumeration in the schemas: each value of the underlying integer range (all of them up to 16 bits;
+    the 0 / 1 / 2^k +- 1 / maximum boundaries and every defined member above) decodes to something whose numeric value is the
+    one on the wire, consumes exactly its own bytes, and encodes back to those bytes -- named or not."""
+    n = 0
+    types = enum_types()
+    for ty in types:
+        bits, _ = gv._int_info(ty)
+        if not bits or bits % 8:
+            continue
+        size = bits // 8
+        if bits <= 16:
+            cands = range(1 << bits)
+        else:
+            cands = sorted({0, 1, 2, (1 << bits) - 1, (1 << bits) - 2} | {(1 << k) + d for k in range(1, bits) for d in (-1, 0, 1)}
+                           | {int(m) for m in ty})
+        bad = None
+        for c in cands:
+            raw = int(c).to_bytes(size, "little")
+            n += 1
+            try:
+                v, rest = ty.deserialize(raw + b"\xa5")
+                if int(v) != c or rest != b"\xa5":
+                    bad = f"{raw.hex()} decodes to {v!r} (numeric value {int(v):#x}), rest {bytes(rest).hex()}"
+                elif bytes(v.serialize()) != raw:
+                    bad = f"{raw.hex()} decodes to {v!r}, which encodes to {bytes(v.serialize()).hex()}"
+                elif bytes(ty(c).serialize()) != raw:
+                    bad = f"{ty.__name__}({c:#x}) encodes to {bytes(ty(c).serialize()).hex()}"
+            except Exception as e:  # noqa
+                bad = f"{raw.hex()}: {type(e).__name__}: {e}"
+            if bad:
+                break
+        if bad:
+            rep.add_violation(f"C07|enum|{ty.__name__}", f"enumeration {ty.__name__}: {bad}",
+                              {"world": "c07", "kind": "enum", "type": ty.__name__, "value": int(c)})
+    if len(types) < 30:
+        raise explore.InternalError(f"C07 enum pass vacuous: {len(types)} enumeration types found")
+    return len(types), n
+
+
 def main(tier: str) -> int:
     rep = report.Report("C07", tier, "exploration")
+    n_enum_types, n_enum_values = enum_fidelity(rep)
     sweep = tier != "quick"
     jobs = [(v, sweep) for v in ezspenv.VERSIONS]
     results = list(explore.pool().imap_unordered(run_version, jobs, chunksize=1))
@@ -349,6 +418,7 @@ def main(tier: str) -> int:
         "evaluations": tot["calls"] + tot["callbacks"],
         "distinct_nontrivial": tot["tuples"],
         "version_command_pairs": tot["pairs"],
+        "enum_types": n_enum_types, "enum_values_round_tripped": n_enum_values,
         "command_calls": tot["calls"],
         "unsolicited_frames": tot["callbacks"],
         "versions": ezspenv.VERSIONS,
@@ -368,6 +438,13 @@ def main(tier: str) -> int:
 def replay(data) -> int:
     import bellows.types as t
 
+    if data.get("kind") == "enum":
+        ty = next(c for c in enum_types() if c.__name__ == data["type"])
+        size = gv._int_info(ty)[0] // 8
+        raw = int(data["value"]).to_bytes(size, "little")
+        v, rest = ty.deserialize(raw)
+        print(f"{ty.__name__}: wire {raw.hex()} -> {v!r} (numeric {int(v):#x}) -> {bytes(v.serialize()).hex()}")
+        return 0 if int(v) == data["value"] and bytes(v.serialize()) == raw and not rest else 1
     version, name = data["version"], data["command"]
     if data.get("history"):
         ctx = Ctx(version)
